@@ -9,6 +9,8 @@ import MW.Lemmas.PersistFault
 import MW.Lemmas.PersistCrash
 import MW.Lemmas.LedgerConnect
 import MW.Lemmas.Deepen3Task
+import MW.Lemmas.Deepen3Retry
+import MW.Lemmas.Deepen3Ex
 namespace MW.Props.C18
 open MW MW.Model.Ledger MW.Model.Persist MW.Spec.Persist MW.Lemmas.PersistOp MW.Lemmas.PersistFault MW.Lemmas.PersistCrash
 
@@ -250,6 +252,35 @@ theorem retry_equiv_removeStep (limit nR : Nat) (env : Env) (w : Wid) (addrs : L
       (Lemmas.Deepen3.opRemoveStep limit nR env w addrs).run none P V :=
   Lemmas.Deepen3.removeStep_retry limit nR env w addrs P js V r hr hk hnw hna hf
 
+open MW.Lemmas.Deepen3 in
+/-- retry_equiv for the follower's own retry over ANY gap (what `retry_equiv_follower` proves for one missed block
+    with exact equality): the wallet holds the books of the node's chain up to height `h` (`SInv`); the
+    notifications of blocks `h+1 … h+k` failed (fault at any call index: nothing changed — `fault_restores_coh_block`);
+    the notification of block `h+k+1` ALONE succeeds (reorganisation path: nothing disconnected, all `k+1` blocks
+    connected in one batch) and reaches the books of the chain up to it — as does the fault-free sequence of the
+    `k+1` notifications (`notifySeq`); confirmed buckets extensionally equal, same synced-to and tip copy -/
+theorem retry_equiv_follower_gap {st : Static} {G : Block} (E : StaticOK st G) {ks : AMap.T Wid KsRec} {chain : List Block}
+    (hN : Lemmas.Ledger.ChainOK (lenv st ks) G chain) {s0 : Store}
+    (hAR : Lemmas.Ledger.AllReady (ownOf ks) (readyWallets s0 (walletsOf ks)))
+    (hne : (readyWallets s0 (walletsOf ks)).isEmpty = false)
+    (n : Nat) {h : Nat} {P : PStore} {V : PVol} (hS : SInv st ks chain s0 h P V) (k : Nat) (b : Block)
+    (hb : chain[h + (k + 1)]? = some b) :
+    ((opBlock (envAt st chain) n b).run none P V).ok = true ∧
+    SInv st ks chain s0 (h + (k + 1)) ((opBlock (envAt st chain) n b).run none P V).P
+      ((opBlock (envAt st chain) n b).run none P V).V ∧
+    SInv st ks chain s0 (h + (k + 1)) (notifySeq st n chain (List.range' (h + 1) (k + 1)) (P, V)).1
+      (notifySeq st n chain (List.range' (h + 1) (k + 1)) (P, V)).2 ∧
+    AMap.Equiv ((opBlock (envAt st chain) n b).run none P V).P.led.credits
+      (notifySeq st n chain (List.range' (h + 1) (k + 1)) (P, V)).1.led.credits ∧
+    AMap.Equiv ((opBlock (envAt st chain) n b).run none P V).P.led.unspent
+      (notifySeq st n chain (List.range' (h + 1) (k + 1)) (P, V)).1.led.unspent ∧
+    ((opBlock (envAt st chain) n b).run none P V).P.led.syncedTo =
+      (notifySeq st n chain (List.range' (h + 1) (k + 1)) (P, V)).1.led.syncedTo ∧
+    ((opBlock (envAt st chain) n b).run none P V).V.led.best =
+      (notifySeq st n chain (List.range' (h + 1) (k + 1)) (P, V)).2.led.best := by
+  have := follower_retry_gap E hN hAR hne n hS k b hb
+  exact ⟨this.1, this.2.1, this.2.2.1, this.2.2.2.1, this.2.2.2.2.1, this.2.2.2.2.2.2.2.2.2.2.1, this.2.2.2.2.2.2.2.2.2.2.2⟩
+
 -- ------------------------------------------------------------------ non-vacuity
 
 def env0 : Env := {}
@@ -316,5 +347,18 @@ def V3 : PVol := { led := { best := ⟨2, "B2"⟩ }, keys := P3.ks }
 example : allFail (Lemmas.Deepen3.opImportStep 1000 2 envN "W9") [0, 2, 3] P3 V3 = true := by decide
 example : ((Lemmas.Deepen3.opImportStep 1000 2 envN "W9").run none P3 V3).ok = true ∧
     ((Lemmas.Deepen3.opImportStep 1000 2 envN "W9").run none P3 V3).P.led.status = [("W9", ⟨none, false⟩)] := by decide
+
+
+/-- ROUND 3 — the hypotheses of `retry_equiv_follower_gap` are satisfiable: wallet w1 at genesis of G–b1–d2 (books of
+    `chain.take 1`), the notification of b1 was lost, the notification of d2 alone connects b1 and d2 -/
+theorem gapSInv : Lemmas.Deepen3.SInv Lemmas.Deepen3.exSt Lemmas.Deepen3.exKs0
+    [Lemmas.Ledger.hxG, Lemmas.Ledger.hxB1, Lemmas.Ledger.ixD2] Lemmas.Ledger.obS0 0 Lemmas.Deepen3.exX0.P
+    Lemmas.Deepen3.exX0.V :=
+  ⟨rfl, rfl, (Lemmas.Ledger.inv_env_chain (Lemmas.Deepen3.lenv Lemmas.Deepen3.exSt Lemmas.Deepen3.exKs0) _ _).1 Lemmas.Deepen3.exInv0, rfl, by decide, fun _ => rfl⟩
+example : ((opBlock (Lemmas.Deepen3.envAt Lemmas.Deepen3.exSt [Lemmas.Ledger.hxG, Lemmas.Ledger.hxB1, Lemmas.Ledger.ixD2]) 1
+    Lemmas.Ledger.ixD2).run none Lemmas.Deepen3.exX0.P Lemmas.Deepen3.exX0.V).ok = true :=
+  (retry_equiv_follower_gap Lemmas.Deepen3.exStaticOK
+    (Lemmas.Deepen3.exOK Lemmas.Deepen3.exKs0 Lemmas.Ledger.ixD2 (Or.inl rfl) Lemmas.Deepen3.exValid0)
+    Lemmas.Deepen3.exAllReady0 (by decide) 1 gapSInv 1 Lemmas.Ledger.ixD2 rfl).1
 
 end MW.Props.C18
